@@ -4,7 +4,7 @@
 From Coq Require Import ZArith List Bool NArith.
 Import ListNotations.
 Require Import PV.Core.Obj PV.Core.Val PV.Core.Cls PV.Core.Member PV.Core.CanAssignK PV.Core.CanAssign PV.Core.C04Run.
-Require Import PV.Proofs.C04Laws PV.Proofs.C04Witness PV.Gen.ClassTable.
+Require Import PV.Proofs.C04Laws PV.Proofs.C04Mono PV.Proofs.C04Refl PV.Proofs.C04Witness PV.Gen.ClassTable.
 
 (* a union is accepted exactly when each member is (every class table, fuel, mode) *)
 Theorem C04_union_right_iff_all : forall ct n e A bs,
@@ -45,6 +45,31 @@ Theorem C04_annotated_left : forall ct n e md t B,
   can_assign_f ct (S n) e (VNode (TAnnot md) [t]) B = can_assign_f ct n e t B.
 Proof. exact annotated_left. Qed.
 Print Assumptions C04_annotated_left.
+
+(* switching on "Any only matches Any" never turns a rejection into an acceptance *)
+Theorem C04_exclude_any_monotone : forall ct n A B,
+  can_assign_f ct n true A B = true -> can_assign_f ct n false A B = true.
+Proof. exact exclude_any_monotone. Qed.
+Print Assumptions C04_exclude_any_monotone.
+
+(* fuel adequacy: more fuel never turns an acceptance into a rejection *)
+Theorem C04_fuel_monotone : forall ct e n m A B, n <= m ->
+  can_assign_f ct n e A B = true -> can_assign_f ct m e A B = true.
+Proof. exact fuel_mono. Qed.
+Print Assumptions C04_fuel_monotone.
+
+(* every value of the reflexive fragment accepts itself, in both modes, for every class table *)
+Theorem C04_reflexive : forall ct e A, refl_ok ct A = true ->
+  exists n, forall m, n <= m -> can_assign_f ct m e A A = true.
+Proof. exact reflexive. Qed.
+Print Assumptions C04_reflexive.
+
+Example C04_refl_ok_example :
+  refl_ok table (VUnion [VNode (TGeneric c_dict) [VLeaf (LTyped c_str false); VNode (TSeq c_tuple [false; false]) [VUnion [VLeaf (LTyped c_int false); VLeaf (LKnown ONone)]; VLeaf (LTyped c_int false); VLeaf (LKnown ONone)]];
+                         VNode (TAnnot [1%N]) [VNode (TSubclass false) [VLeaf (LTyped c_float false)]];
+                         VLeaf (LNewType 1 c_int); VLeaf (LAny 2)]) = true.
+Proof. exact refl_ok_example. Qed.
+Print Assumptions C04_refl_ok_example.
 
 (* obligations over the table dumped from the implementation *)
 Theorem C04_table_nominal_refl : forallb (fun c => tassign table c c) classes = true.
